@@ -77,6 +77,11 @@ CASES = [
     ({"s": {"drop_atol": 0, "ignore_rank": False}}, {"s": {"drop_atol": 1e-8, "ignore_rank": True, "system": "triclinic"}}),
     ({"out": {"pressure_base": []}}, {"out": {"pressure_base": ["cij", "vs"], "volume_base": ["p"]}}),
     ({"n": None}, {"n": "D1", "m": None}),
+    # the real nesting depth (elast -> settings -> symmetry -> leaf) and deeper: a partially given group at every level
+    ({"elast": {"settings": {"symmetry": {"system": "U1"}}}},
+     {"elast": {"settings": {"symmetry": {"system": "D1", "ignore_rank": "D2", "drop_atol": "D3"}, "mode_gamma": {"order": "D4"}}, "input": "D5"}, "qha": {"settings": {"NT": "D6"}}}),
+    ({"l1": {"l2": {"l3": {"l4": {"l5": {"a": "U1"}}}}}}, {"l1": {"l2": {"l3": {"l4": {"l5": {"a": "D1", "b": "D2"}, "c": "D3"}, "d": "D4"}, "e": "D5"}, "f": "D6"}}),
+    ({"l1": {"l2": {"l3": {"l4": {"l5": {"l6": {"l7": {"a": "U1"}}}}}}}}, {"l1": {"l2": {"l3": {"l4": {"l5": {"l6": {"l7": {"a": "D1", "b": "D2"}}}}}}}}),
 ]
 
 
@@ -387,6 +392,11 @@ def r_schema(ctx, model):
         "unknown key in symmetry": mutate(["elast", "settings", "symmetry", "sytem"], "cubic"),
         "unknown key in elast settings": mutate(["elast", "settings", "mode_gama"], {}),
         "qha not an object": mutate(["qha"], 3), "drop_atol = 'x'": mutate(["elast", "settings", "symmetry", "drop_atol"], "x"),
+        # below a documented minimum by a fraction (a minimum rewritten as an exclusive bound one unit lower admits these)
+        "order = 1.5": mutate(["qha", "settings", "order"], 1.5), "order = 1.999": mutate(["qha", "settings", "order"], 1.999),
+        "NT = 0.5": mutate(["qha", "settings", "NT"], 0.5), "NTV = 0.5": mutate(["qha", "settings", "NTV"], 0.5),
+        "mode_gamma.order = 0.5": mutate(["elast", "settings", "mode_gamma", "order"], 0.5), "T_MIN = -0.5": mutate(["qha", "settings", "T_MIN"], -0.5),
+        "volume_ratio = 0.999": mutate(["qha", "settings", "volume_ratio"], 0.999),
     }
     accepted = [k for k, c in rejects.items() if not list(v.iter_errors(c))]
     ctx.check(not accepted, f"{len(rejects)} single-field invalid perturbations are rejected", w, expected="ValidationError for each",
